@@ -8,20 +8,13 @@ from .common import is_name, params, returns_of, calls_in, stores_in, flatten_ta
 from .keydomain import reader_kinds
 from . import subdomain_folds as sf
 
-EXPLANATION = (
-    "Static rules on spatial/subdomain.py (both functions, by sibling agreement): (R1) key domain: every literal group key "
-    "used to subscript a Dataset belongs to the set of group names the loader produces ({reader.kind} = mesh, part, sink), "
-    "and the fallback to the mesh positions is evaluated lazily, only when the group has no position of its own; "
-    "(R2) membership predicates: sphere = strict `<` between the norm of (pos - origin) and the radius; box = for each axis "
-    "the pair centred.a <= d_a/2 and centred.a >= -d_a/2 with x<->dx, y<->dy, z<->dz, all six ANDed; (R3) one mask for the "
-    "whole group: the group is indexed with that mask through Datagroup.__getitem__, behind the shape guard and the "
-    "any-row guard; (R4) the input is untouched: no store through the dataset or anything reached from it, every inserted "
-    "group is the result of mask-indexing (a new Datagroup), and the metadata is a copy.")
-NOT_DECIDED = "boundary rounding; 1-D/2-D datasets (centered_pos.z is None); numeric unit conversion (pint)"
-TRUSTED = ("CPython ast", "Array comparison semantics as established by C07", "Datagroup.__getitem__ as established by C06.R3")
+EXPLANATION = "(R1) extract_sphere / extract_box interpreted through the repository's Dataset/Datagroup/Vector classes over scenario datasets (mesh, hydro without positions, particles with as many rows as the mesh, sinks, a group of another length; a dataset without a mesh group): which groups are returned, the ONE mask that selects the rows of every member as polynomial atoms (|pos-origin| < radius; |offset_a| <= size_a/2 per axis), own positions before mesh positions, lazy mesh fallback under the group name the AMR reader produces, input untouched, metadata copied; (R5) Array.to exact (shared); (R6) every way of putting a group into a Dataset sets its parent link (shared with C20)."
+NOT_DECIDED = 'boundary rounding; 1-D/2-D datasets; numeric unit conversion (pint)'
+TRUSTED = ('CPython ast', 'Array comparison semantics as established by C07', 'Datagroup.__getitem__ as established by C06.R3', 'the interpreter sa/models.py (ModelEval) and its library models')
 
 FUNCS = ["spatial/subdomain.py::extract_sphere", "spatial/subdomain.py::extract_box"]
 
+TECHNIQUE = 'static analysis: abstract interpretation of the extraction functions over scenario datasets with polynomial normal forms of the masks'
 
 def r1_fold(run, tree):
     run.rule("C16.R1", "extract_sphere / extract_box folded over scenario datasets: which groups are returned, which mask selects their rows "
